@@ -31,7 +31,9 @@ def race_demo(out, tier, findings, race=False):
         fatal = [l for l in p.stderr.split("\n") if l.startswith("fatal error:")]
         res[mode] = fatal[0] if fatal else p.stdout.strip()
         cmd = {"cmd": "walker harness%s race %s %d" % (" (-race build)" if race else "", mode, runs), "stderr": p.stderr[:3000]}
-        if not fatal and "DATA RACE" in p.stderr:
+        if not fatal and "DATA RACE" in p.stderr and all(k == "pool-close-vs-send" for k, _ in walkerlib.race_reports(p.stderr)):
+            res[mode] = p.stdout.strip() + " (race detector: pool close-vs-send only, not judged)"
+        elif not fatal and "DATA RACE" in p.stderr:
             # class guard: the two sides are onComplete's write of the completions map and the caller's read of the returned map
             in_class = "onComplete" in p.stderr and ("CompletionMap" in p.stderr or "raceRuns" in p.stderr)
             res[mode] = "DATA RACE"
